@@ -22,6 +22,8 @@ Lib == [ R  |-> << <<"in">>, <<"out">> >>,
          W  |-> << <<"in">>, <<"status", 201>>, <<"write", 2, "full">>, <<"next">>, <<"out">> >>,
          P  |-> << <<"in">>, <<"panic">>, <<"out">> >>,
          WP |-> << <<"in">>, <<"write", 3, "full">>, <<"panic">> >>,
+         PA |-> << <<"in">>, <<"panic", "abort-sentinel">> >>,       \* panic(http.ErrAbortHandler): a panic like any other for the router
+         EP |-> << <<"in">>, <<"err">>, <<"panic">> >>,               \* records an error, then panics
          PH |-> << <<"in">>, <<"catchnext">>, <<"out">> >>,
          NP |-> << <<"in">>, <<"next">>, <<"panic">>, <<"out">> >>,
          \* pkg/handlers middleware called by a handler (the harness calls the real functions)
